@@ -59,6 +59,7 @@ type Tokenizer struct {
 	str              string
 	isLast           bool
 	last             rune
+	lastRaw          rune
 	lastStr          string
 	tok              chan Token
 	tokenAvail       int
@@ -235,7 +236,7 @@ func (t *Tokenizer) run(tokens chan<- Token) {
 		case '"':
 			tokens <- t.readStr()
 		case '\'':
-			image := t.readSkip(func(c rune) bool { return c != '\'' }, false)
+			image := t.readRaw(func(c rune) bool { return c != '\'' })
 			t.next(false)
 			tokens <- Token{tIdent, image, t.getLine()}
 		case '⁰':
@@ -342,6 +343,7 @@ func (t *Tokenizer) peek(skipComment bool) rune {
 	}
 	if len(t.str) == 0 {
 		t.last = EOF
+		t.lastRaw = EOF
 		return EOF
 	}
 	var size int
@@ -396,6 +398,7 @@ func (t *Tokenizer) peek(skipComment bool) rune {
 		}
 	}
 
+	t.lastRaw = t.last
 	switch t.last {
 	case '•':
 		t.last = '*'
@@ -432,8 +435,28 @@ func (t *Tokenizer) next(skipComment bool) rune {
 	return n
 }
 
+// nextRaw returns the next rune as it is written in the input. Inside string
+// literals and quoted identifiers the typographic aliases are no operators.
+func (t *Tokenizer) nextRaw() rune {
+	t.next(false)
+	return t.lastRaw
+}
+
 func (t *Tokenizer) read(valid func(c rune) bool) string {
 	return t.readSkip(valid, false)
+}
+
+// readRaw is like read, but the runes are taken as they are written.
+func (t *Tokenizer) readRaw(valid func(c rune) bool) string {
+	str := strings.Builder{}
+	for {
+		if c := t.nextRaw(); c != 0 && valid(c) {
+			str.WriteRune(c)
+		} else {
+			t.unread()
+			return str.String()
+		}
+	}
 }
 
 func (t *Tokenizer) readSkip(valid func(c rune) bool, skipComment bool) string {
@@ -451,12 +474,12 @@ func (t *Tokenizer) readSkip(valid func(c rune) bool, skipComment bool) string {
 func (t *Tokenizer) readStr() Token {
 	str := strings.Builder{}
 	for {
-		if c := t.next(false); c != '"' {
+		if c := t.nextRaw(); c != '"' {
 			switch c {
 			case 0, '\n', '\r':
 				return Token{tInvalid, "EOL", t.getLine()}
 			case '\\':
-				i := t.next(false)
+				i := t.nextRaw()
 				switch i {
 				case 'n':
 					str.WriteRune('\n')
